@@ -38,7 +38,8 @@ static void scenario(const vh::Json& sc, vh::Out& out, vh::Rng& rng, const vh::A
     std::vector<std::pair<long, PDU::PDUType> > built_layers;
     Entry entry = E_ETH; Bytes b0; std::string bname; bool serializable = true; int special = 0;   // 1 = PPI, 2 = PKTAP
     if (base.has("raw")) { for (size_t i = 0; i < base["raw"].size(); ++i) b0.push_back((uint8_t)base["raw"][i].num()); bname = "golden:" + base["name"].str();
-                           if (base.has("entry")) { const std::string en = base["entry"].str(); for (int q = 0; q < 8; ++q) if (en == entry_name((Entry)q)) entry = (Entry)q; } }
+                           if (base.has("entry")) { const std::string en = base["entry"].str(); for (int q = 0; q < 8; ++q) if (en == entry_name((Entry)q)) entry = (Entry)q; }
+                           if (base.has("special") && base["special"].str() == "ppi") { special = 1; serializable = false; } }
     else if (base.has("sample")) { if (base["sample"].str() == "ppi") { b0.assign(SAMPLE_PPI, SAMPLE_PPI + sizeof(SAMPLE_PPI)); special = 1; } else { b0.assign(SAMPLE_PKTAP, SAMPLE_PKTAP + sizeof(SAMPLE_PKTAP)); special = 2; } bname = "sample:" + base["sample"].str(); serializable = false; }
     else { PDU* built = 0; if (base.has("cat")) { built = catalogue((int)base["cat"].num(), rng, entry); bname = "cat" + std::to_string(base["cat"].num()); }
            else { Vals v; int nt; built = build_packet(base, rng, v, nt); bname = "wire"; }
